@@ -60,8 +60,30 @@ _SER = [("N", 12.8, 2.8, 0.3), ("CA", 13.5, 4.1, 0.4), ("C", 15.0, 3.9, 0.5),
         ("OG", 12.1, 5.9, -0.8), ("OXT", 15.6, 5.0, 0.7)]
 
 
+_ILE = [("N", -0.5, 1.2, 0.1), ("CA", 0.9, 1.3, 0.2), ("C", 1.5, 2.7, 0.3),
+        ("O", 0.8, 3.7, 0.4), ("CB", 1.6, 0.4, -0.9), ("CG1", 1.2, -1.1, -0.8),
+        ("CG2", 3.1, 0.6, -1.0), ("CD1", 1.9, -2.0, -1.8)]
+_ALAH = [("N", 2.8, 2.8, 0.3), ("H", 3.3, 2.0, 0.2), ("CA", 3.5, 4.1, 0.4),
+         ("C", 5.0, 3.9, 0.5), ("O", 5.6, 2.8, 0.6), ("CB", 3.2, 4.9, -0.9),
+         ("OXT", 5.6, 5.0, 0.7)]
+# alternative names defined by the residue templates themselves (the
+# program renames them on reading): (residue name, canonical) -> alias
+ALIASES = {("ILE", "CD1"): "CD", ("ALA", "H"): "HN", ("HOH", "O"): "OW",
+           ("WAT", "O"): "OH2", ("A", "O5'"): "O5*", ("U", "C4'"): "C4*"}
+CANONICAL = {(res, alias): canon for (res, canon), alias in ALIASES.items()}
+
+
 def _records(base):
     out = []
+    if base == "E":  # names with template aliases: ILE CD1, amide H, water O
+        for n, x, y, z in _ILE:
+            out.append(("ATOM", n, "ILE", "A", 1, x, y, z, 0))
+        for n, x, y, z in _ALAH:
+            out.append(("ATOM", n, "ALA", "A", 2, x, y, z, 1))
+        out.append(("TER",))
+        out.append(("HETATM", "O", "HOH", "A", 3, 8.0, 8.0, 8.0, 2))
+        out.append(("HETATM", "O", "WAT", "A", 4, 12.0, 8.0, 8.0, 3))
+        return out
     if base == "A":  # dipeptide + water, one chain
         for n, x, y, z in _GLY:
             out.append(("ATOM", n, "GLY", "A", 1, x, y, z, 0))
@@ -175,8 +197,8 @@ INSERTS = {
     "hetnew": "HETATM  900 CL    CL A 900      30.000  31.000  32.000  1.00"
               "  0.00          CL",
 }
-LINE_MODS = ("crlf", "trail", "cut54", "cut60", "cut66", "cut78", "alt_after",
-             "alt_end", "hetflip", "serial5")
+LINE_MODS = ("alias", "crlf", "trail", "cut54", "cut60", "cut66", "cut78",
+             "alt_after", "alt_end", "hetflip", "serial5")
 RES_MODS = ("neg", "big", "icode", "icode_split", "icode_collide")
 
 
@@ -211,6 +233,9 @@ def single_edits(lines):
     for kind in LINE_MODS:
         for i, l in enumerate(lines):
             if is_coord(l):
+                if kind == "alias" and (l[17:20].strip(),
+                                        l[12:16].strip()) not in ALIASES:
+                    continue
                 edits.append(("mod", kind, i))
     for kind in RES_MODS:
         for ri in range(len(_residue_keys(lines))):
@@ -288,7 +313,12 @@ def apply_program(lines, program):
         if kind != "mod":
             continue
         l = lines[pos]
-        if what == "crlf":
+        if what == "alias":
+            alias = ALIASES.get((l[17:20].strip(), l[12:16].strip()))
+            if alias is not None:  # (applying the edit twice changes nothing)
+                field = (" " + alias).ljust(4) if len(alias) < 4 else alias
+                lines[pos] = l[:12] + field + l[16:]
+        elif what == "crlf":
             endings[pos] = "\r\n"
         elif what == "trail":
             lines[pos] = l + " " * 12
@@ -355,7 +385,8 @@ def _ref_set(text, drop_water):
     for a in atoms:
         if drop_water and a["res_name"] in pdb_ref.WATER_NAMES:
             continue
-        key = (a["chain"], a["res_seq"], a["icode"], a["name"],
+        name = CANONICAL.get((a["res_name"], a["name"]), a["name"])
+        key = (a["chain"], a["res_seq"], a["icode"], name,
                round(a["x"], 3), round(a["y"], 3), round(a["z"], 3))
         exp[key] = exp.get(key, 0) + 1
     return exp, bad
@@ -582,6 +613,12 @@ def run_case(case):
         i = case["first"]
         for j in range(i, len(edits)):
             one([edits[i], edits[j]], "direct", False)
+    elif mode == "pairs_all":
+        i = case["first"]
+        for j in range(len(edits)):
+            if j != i:
+                one(sorted([edits[i], edits[j]],
+                           key=lambda e: edits.index(e)), "direct", False)
     elif mode == "triples":
         ins = [e for e in edits if e[0] == "ins"]
         i, j = case["first"], case["second"]
@@ -594,7 +631,7 @@ def run_case(case):
 
 def variants():
     out = []
-    for base in ("A", "B", "C", "D"):
+    for base in ("A", "B", "C", "D", "E"):
         for layout in MODEL_LAYOUTS:
             for flags in ((), ("crlfall",), ("blankchain",), ("samechain",)):
                 if "samechain" in flags and base != "B":
@@ -627,6 +664,14 @@ def enumerate_cases(tier, seed):
         n = len(single_edits(build_lines(v[0], v[1], tuple(v[2]))))
         for i in range(n):
             cases.append({"mode": "pairs", "variant": v, "first": i})
+    if tier == "quick":
+        # alias edits of base E / D paired with every other edit
+        for v in (["E", "none", []], ["E", "m1m2", []], ["D", "none", []]):
+            eds = single_edits(build_lines(v[0], v[1], tuple(v[2])))
+            for i, e in enumerate(eds):
+                if e[0] == "mod" and e[1] == "alias":
+                    cases.append({"mode": "pairs_all", "variant": v,
+                                  "first": i})
     if tier == "thorough":
         v = ["A", "none", []]
         lines = build_lines("A", "none", ())
